@@ -80,6 +80,7 @@ def run(prog, tier, extra=None):
     R2 = res.rule("C01.who-may-insert", "only add_transaction (behind validate) and add_block_transactions_back insert into the pool", floor=3)
     R4 = res.rule("C01.dup-scan", "the in-block double-spend scan checks and records each spent key individually", floor=1)
     R5 = res.rule("C01.scan-exemptions", "only zero-amount and Bound inputs are exempt from the in-block double-spend test", floor=0)
+    R6 = res.rule("C01.tx-dup", "Transaction::validate accepts a non-privileged transaction only after a test that can tell a repeated input key", floor=1)
     R3 = res.rule("C01.signature", "Transaction::validate accept paths pass verify_signature(hash_for_signature, signature, from[0].public_key)", floor=1)
 
     units = prog.units
@@ -323,6 +324,72 @@ def run(prog, tier, extra=None):
         res.sample({"rule": "C01.signature", "verify_switches": [tv.loc(b) for b in sig["sites"]],
                     "privileged_type_exits": sorted(set("%s@%s" % (v, tv.loc(b)) for b, v in priv_sites)),
                     "states": ex.states, "verdict": "every other accept path passes the true edge"})
+
+    # R6: "nor twice inside the transaction": the pool admits a transaction on Transaction::validate's word alone (its own reservation
+    # test looks every key up before it inserts any), so validate must contain a test that can distinguish a repeated input key: a
+    # comparison of the number of *distinct* keys (a set built from the inputs' utxoset_key) with the number of inputs, or an
+    # any()/all() over the inputs whose closure inserts the key into a set and uses the result. Counting a Vec is not such a test.
+    SETS = ("HashSet<", "BTreeSet<", "AHashSet<", "HashMap<", "BTreeMap<", "AHashMap<")
+
+    def builds_key_set(e):
+        """the expression is (the length of) a set collected from the inputs' utxoset keys"""
+        for x in walk(e):
+            if x[0] in ("call", "via") and x[1].rsplit("::", 1)[-1] == "collect" and isinstance(x[3], int):
+                tt = tv.term(x[3])
+                if tt["k"] == "call" and not tt["dest"][1] and any(k in tv.ty(tt["dest"][0])["s"] for k in SETS) and "[u8; 59]" in tv.ty(tt["dest"][0])["s"]:
+                    return True
+        return False
+
+    def closure_inserts_key(e):
+        for x in walk(e):
+            if x[0] == "agg" and x[1][0] == "closure":
+                cb = prog.bodies.get(x[1][1])
+                if cb is None:
+                    continue
+                for cbb, ct in cb.calls():
+                    n = call_name(ct) or ""
+                    if n.rsplit("::", 1)[-1] == "insert" and keyed_by_utxo_key(cb, ct):
+                        return True
+        return False
+    good6 = set()
+    n6 = 0
+    lc = gate.compare_edges(tv, ch, lambda a, c: builds_key_set(a) and has_field(c, "Transaction", "from"))
+    good6 |= lc["eq"]
+    n6 += len(lc["sites"])
+    for nm, edge in (("any", "false"), ("all", "true")):
+        sw = gate.bool_switch_edges(tv, ch, lambda e, nm=nm: e[0] == "call" and e[1].rsplit("::", 1)[-1] == nm and has_field(e, "Transaction", "from") and closure_inserts_key(e))
+        good6 |= sw[edge]
+        n6 += len(sw["sites"])
+    # explicit loop form: `for slip in &self.from { if !seen.insert(slip.utxoset_key) { return false } }` - leaving that loop normally
+    # means every input key was inserted fresh
+    ins = gate.bool_switch_edges(tv, ch, lambda e: e[0] == "call" and e[1].rsplit("::", 1)[-1] == "insert" and isinstance(e[3], int)
+                                 and tv.term(e[3])["k"] == "call" and keyed_by_utxo_key(tv, tv.term(e[3])))
+    for sb in ins["sites"]:
+        h = tv.innermost_loop_containing([sb])
+        if h is None:
+            continue
+        loop = tv.natural_loop(h)
+        over_from = any(call_name(tv.term(b2)) == "std::iter::Iterator::next" and tv.term(b2)["args"] and has_field(ch.origin(tv.term(b2)["args"][0]), "Transaction", "from")
+                        for b2 in loop if tv.term(b2)["k"] == "call")
+        dup_rejects = all(not Explorer(tv).explore(tgt, accept=gate.make_accept(tv, return_true=True), blocked={h}) for (_, tgt) in ins["false"] if _ == sb)
+        if over_from and dup_rejects:
+            n6 += 1
+            for b2 in loop:
+                for s2 in tv.succ(b2):
+                    if s2 not in loop:
+                        good6.add((b2, s2))
+    res.instance(R6, max(n6, 1))
+    ex6 = Explorer(tv)
+    found6 = ex6.explore(0, deleted_edges=good6 | exempt, accept=gate.make_accept(tv, return_true=True))
+    if found6:
+        kind, path = sorted(found6.items())[0]
+        res.add(Finding(R6, "C01.tx-dup|%s" % ("no-test" if not good6 else "bypass"),
+                        "Transaction::validate can return true for a non-privileged transaction without any test that distinguishes a repeated input key%s: a transaction "
+                        "listing one unspent output twice is admitted to the pool with twice the input value"
+                        % (" (its duplicate-input test counts a Vec, which always has as many elements as there are inputs)" if not good6 else ""),
+                        tv.loc(path[-1]), {"path": describe_path(tv, path)}))
+    else:
+        res.sample({"rule": R6, "tests": n6, "states": ex6.states, "verdict": "every non-privileged accept path passes a distinct-key test"})
 
     # the ledger C01's verdicts are evaluated against is the one wind/unwind maintain, and the only un-signed spends the
     # validator admits are the rebroadcasts it re-derives: both mechanisms are decided by the C03 / C13 rules, cross-listed here
